@@ -142,7 +142,7 @@ def case(arg):
                     continue
                 before = L.observe(l)
                 repend = False
-                if same and rng.random() < 0.35 and b not in ("integ",) and not b.startswith("lnd"):
+                if same and rng.random() < 0.35 and b not in ("integ",):
                     # a retry: the told point is marked pending again, then its (same) result arrives once more
                     l.tell_pending(p)
                     repend = True
